@@ -267,7 +267,7 @@ static const char *caf_ids [] = { "desc", "data", "chan", "info", "peak", "free"
 static Chunk cur_chunks [64] ; static int cur_nchunks ; static const Seed *cur_chunk_seed ;
 static void chunks_of (const Seed *s) { if (cur_chunk_seed != s) { cur_nchunks = s->chunk_kind ? walk_chunks (s, cur_chunks, 64) : 0 ; cur_chunk_seed = s ; } }
 
-static const char *fam_names [M_NKINDS] = { "identity", "truncate", "byte", "word16", "word32", "word64", "chunk-delete", "chunk-duplicate", "chunk-swap", "chunk-to-end", "chunk-retag", "chunk-shrink", "bytes" } ;
+static const char *fam_names [M_NKINDS] = { "identity", "truncate", "byte", "word16", "word32", "word64", "chunk-delete", "chunk-duplicate", "chunk-swap", "chunk-to-end", "chunk-retag", "chunk-shrink", "bytes", "data-fill" } ;
 const char *hc_family (const Mut *m) { return fam_names [m->kind] ; }
 
 void hc_describe (const Mut *m, char *buf, size_t n)
@@ -280,6 +280,7 @@ void hc_describe (const Mut *m, char *buf, size_t n)
 		case M_W64 : snprintf (buf, n, "at=%lld %s=0x%016llx", (long long) m->a, m->be ? "be" : "le", (unsigned long long) m->v) ; break ;
 		case M_CRETAG : snprintf (buf, n, "chunk=%lld id=%02x%02x%02x%02x", (long long) m->a, (unsigned char) m->id [0], (unsigned char) m->id [1], (unsigned char) m->id [2], (unsigned char) m->id [3]) ; break ;
 		case M_CSHRINK : snprintf (buf, n, "chunk=%lld payload=%lld", (long long) m->a, (long long) m->b) ; break ;
+		case M_FILL : snprintf (buf, n, "from=%lld value=0x%02x extend-to=%lld", (long long) m->a, (unsigned) m->v, (long long) m->b) ; break ;
 		case M_RAW :
 			{	size_t o = snprintf (buf, n, "len=%d ", m->rawlen) ;
 				if (m->rawlen <= 4) for (int k = 0 ; k < m->rawlen && o + 3 < n ; k++) o += snprintf (buf + o, n - o, "%02x", m->raw [k]) ;
@@ -297,6 +298,10 @@ sf_count_t hc_materialise (const Seed *s, const Mut *m, unsigned char *out)
 	c = &cur_chunks [m->kind >= M_CDEL && m->kind <= M_CSHRINK ? m->a : 0] ;
 	switch (m->kind)
 	{	case M_IDENT : memcpy (out, s->data, L) ; return L ;
+		case M_FILL :
+			{	sf_count_t T = m->b > L ? m->b : L ;	/* b: total length to extend to (headerless seeds are short) */
+				memcpy (out, s->data, L) ; if (m->a < T) memset (out + m->a, (int) m->v, T - m->a) ; return T ;
+				}
 		case M_TRUNC : memcpy (out, s->data, m->a) ; return m->a ;
 		case M_BYTE : memcpy (out, s->data, L) ; out [m->a] = (unsigned char) m->v ; return L ;
 		case M_W16 : memcpy (out, s->data, L) ; put_word (out + m->a, m->v, 2, m->be) ; return L ;
@@ -386,6 +391,10 @@ void hc_seed_families (const Seed *s, HcRun run)
 			run (s, &m, vio, 0) ;
 			}
 		}
+	/* F: the whole data region set to one byte value, every value (saturating / degenerate codec input) */
+	m.kind = M_FILL ; m.a = s->dataoff ; m.be = 0 ;
+	if (s->dataoff < s->len) for (int v = 0 ; v < 256 ; v++) { m.v = v ; m.b = 0 ; run (s, &m, vio, 0) ; m.b = s->dataoff + 2048 ; run (s, &m, vio, 0) ; }
+	m.a = 0 ; m.v = 0 ; m.b = 0 ;
 	/* C: chunk edits */
 	if (s->chunk_kind)
 	{	const char **ids = s->chunk_kind == 1 ? riff_ids : s->chunk_kind == 2 ? iff_ids : caf_ids ; int n ;
